@@ -68,5 +68,14 @@ impl ScannerCache {
 /// The global scanner cache.
 /// This is a singleton that can be accessed from anywhere in the code.
 /// It is a `RwLock` to allow multiple threads to access the cache.
+#[cfg(not(scnr_verif_shuttle))]
 pub(crate) static SCANNER_CACHE: std::sync::LazyLock<std::sync::RwLock<ScannerCache>> =
     std::sync::LazyLock::new(|| std::sync::RwLock::new(ScannerCache::new()));
+
+// Verification hook: the same singleton with the lock owned by the shuttle scheduler, so that a
+// controlled scheduler decides every interleaving at the cache lock. Off by default.
+#[cfg(scnr_verif_shuttle)]
+shuttle::lazy_static! {
+    pub(crate) static ref SCANNER_CACHE: shuttle::sync::RwLock<ScannerCache> =
+        shuttle::sync::RwLock::new(ScannerCache::new());
+}
